@@ -45,6 +45,8 @@ DESCRIPTIONS = [
     "Tab-free, comma, semi; colon: done",
     "Unicode line\u2028separator, paragraph\u2029separator and next\u0085line inside",
     "Children may extend here as needed.",
+    "Mentions the entity &#8203; and a bare & with #hash",
+    "Windows path C:\\new_data\\table, LaTeX \\nu and \\t, ends with backslash \\",
 ]
 
 
